@@ -124,6 +124,37 @@ def corruptions(img, rd, rng, per_image):
     return kept[:per_image]
 
 
+def walk_cases(img, rd, rng):
+    """directory-graph rewrites for the Walk.v correspondence: a sub-directory record is redirected to another DIRECTORY
+    extent (itself, an ancestor, a sibling, a cousin); returns (spec, association list, root) with the graph the walk will see"""
+    out = []
+    root = rd.iso_root
+    if root is None or not root.extents:
+        return out
+    alld = []
+    st = [root]
+    while st:
+        d = st.pop()
+        alld.append(d)
+        st.extend(c for c in d.children if c.is_dir)
+    if len(alld) < 3 or rd.joliet_root is not None and False:
+        return out
+    ext = {id(d): d.extents[0][0] for d in alld if d.extents}
+    graph = {ext[id(d)]: [ext[id(c)] for c in d.children if c.is_dir and id(c) in ext and not (c.rr is not None and c.rr.cl is not None)] for d in alld if id(d) in ext}
+    subs = [(d, c) for d in alld for c in d.children if c.is_dir and c.dr_offset is not None and id(c) in ext
+            and not (c.rr is not None and (c.rr.cl is not None or c.rr.re))]
+    rng.shuffle(subs)
+    for (d, c) in subs[:4]:
+        for tgt in rng.sample(alld, min(3, len(alld))) + [d]:
+            if id(tgt) not in ext:
+                continue
+            g = {k: list(v) for k, v in graph.items()}
+            lst = g[ext[id(d)]]
+            lst[lst.index(ext[id(c)])] = ext[id(tgt)]
+            out.append(({'patch': [[c.dr_offset + 2, both32(ext[id(tgt)]).hex()]]}, sorted(g.items()), ext[id(root)]))
+    return out
+
+
 def base_images(ctx, n):
     rng = ctx.rng
     cfgs = syslevel.covering_configs(rng, 16)
@@ -132,7 +163,19 @@ def base_images(ctx, n):
     while len(imgs) < n and i < n * 3:
         cfg = cfgs[i % len(cfgs)]
         i += 1
-        if i % 3 == 0:
+        if i % 4 == 1:
+            # plain ISO9660 image with a bushy directory tree: material for the directory-graph correspondence
+            cfg = syslevel.Config(rng.choice([1, 2, 3, 4]), None, None, None, rng.random() < 0.3)
+            ops, sizes, paths = [], {}, ['']
+            for k in range(rng.randrange(6, 14)):
+                par = rng.choice([p for p in paths if p.count('/') < 5])
+                p = par + '/D%d' % k
+                paths.append(p)
+                ops.append({'k': 'add_dir', 'iso': p})
+            for k in range(3):
+                sizes[k + 1] = 10
+                ops.append({'k': 'add_fp', 'blob': k + 1, 'size': 10, 'iso': rng.choice(paths) + '/F%d.;1' % k})
+        elif i % 3 == 0:
             ops, sizes = c11.boot_history(rng, cfg)
             for op in ops:
                 if op['k'] == 'add_eltorito':
@@ -167,6 +210,10 @@ def run(ctx):
             for lab, sp in corruptions(img, rd, rng, per):
                 sp = dict(sp, id=len(specs), base=path, label=lab, cfg=cfg.key())
                 specs.append(sp)
+            if not cfg.joliet and not cfg.udf and not cfg.rr:
+                for sp, al, root in walk_cases(img, rd, rng):
+                    sp = dict(sp, id=len(specs), base=path, label='walk-graph', cfg=cfg.key(), graph=al, root=root)
+                    specs.append(sp)
         # shard over worker processes (each shard keeps one base image in memory at a time)
         nw = 12
         shards = [[] for _ in range(nw)]
@@ -198,6 +245,34 @@ def run(ctx):
             for sp in sh:
                 if sp['id'] not in results:
                     results[sp['id']] = {'id': sp['id'], 'outcome': 'worker-died'}
+        # Walk.v vs the implementation on redirected directory graphs
+        rows, wspecs = [], []
+        for sp in specs:
+            if sp['label'] != 'walk-graph':
+                continue
+            r = results[sp['id']]
+            if r['outcome'] == 'ok':
+                code = 0
+            elif r['outcome'] == 'PyCdlibInvalidISO' and 'Directory loop' in r.get('msg', ''):
+                code = 1
+            else:
+                continue        # another check of the parser fired first: not a statement about the walk
+            al = '; '.join('(%d, %s)' % (k, common.zlist(v)) for k, v in sp['graph'])
+            rows.append('([%s], %d, %d)' % (al, sp['root'], code))
+            wspecs.append(sp)
+        if rows:
+            defs = ['Fixpoint bad_from (k : nat) (cs : list (list (Z * list Z) * Z * Z)) : list nat := match cs with [] => [] | (al, root, code) :: r => '
+                    'if fst (run_case al root 500) =? code then bad_from (S k) r else k :: bad_from (S k) r end.']
+            bad, err = common.coq_bad_cases('c15walk', ['From PV.Model Require Import Walk.'], defs, '(list (Z * list Z) * Z * Z)', rows, 'bad_from 0', shard=200)
+            name = 'Walk.open_walk vs PyCdlib._walk_directories on redirected directory graphs'
+            if bad is None:
+                ctx.broken.append({'name': 'correspondence:' + name, 'summary': 'model evaluation failed: ' + err})
+            else:
+                ctx.cov['traces_validated_against_impl'] += len(rows) - len(bad)
+                ctx.cov['correspondences'][name] = {'cases': len(rows), 'disagreements': len(bad)}
+                for i in bad[:2]:
+                    ctx.broken.append({'name': 'correspondence:' + name, 'summary': 'the directory walk and Model/Walk.v disagree on a redirected directory graph',
+                                       'coq_case': rows[i][:600]})
         died_first = {}
         for sp in specs:
             r = results[sp['id']]
